@@ -10,6 +10,54 @@ CHECKS = {
    text="Generated expression trees (all <=2-operator trees over a boundary literal alphabet, exhaustively; seeded random trees to ~28 nodes with operands to ~4000 bits, every literal notation, minimal and redundant parentheses) are rendered to query text and evaluated by rink; the result must equal an independent unreduced-BigInt-pair evaluation exactly, be in lowest terms, agree with three 61-bit modular fingerprints computed with u128 arithmetic only, and undefined expressions must be refused. A search, not a proof: it shows absence of disagreement on what was generated.",
    note="Trusted: rustc/std, num-bigint integer multiplication/division (for the reference only; fingerprints are independent), the manual's precedence table as pinned by the repo's own parser tests. 0^0 and negative shift counts accept {error, natural value}.",
    design="§4 C01"),
+ "C02": dict(
+   level="exploration",
+   technique="property-based testing (proptest) of the expression-to-exponent-vector homomorphism against an own dimensional algebra, both directions",
+   text="Random expression trees over every usable database unit (bare, prefixed, plural, quoted ad-hoc base units) and the operators/functions the statement names are evaluated by rink; an independent exponent-vector algebra decides the expected dimensionality or the expected refusal. Defined => right dimensionality with no zero exponent; dimensionally undefined => error; defined with no value hazard => must not be refused. Gated operators draw conformable operand pairs 60% of the time so both gate outcomes are exercised (counted; vacuous runs exit 2).",
+   note="Leaf dimensionalities come from Context::lookup (trusted as the definition of the leaf). log's result dimensionality and functions whose rule the statement does not give are not asserted.",
+   design="§4 C02"),
+ "C03": dict(
+   level="exploration",
+   technique="exhaustive sweep over conformable unit pairs plus property-based testing (proptest) with an exact-rational oracle and a round-trip relation",
+   text="Every ordered pair of units in every dimensionality class (thorough: all 565k pairs; quick: all classes of <=40 members exhaustively, larger ones sampled) and random compound sources/targets (products, quotients, powers, constants, prefixes, plurals, inline definitions) are converted; the reported quotient x must satisfy x*val(T) = val(S) exactly with values recomputed from registry leaves by own rationals, `x T -> S` must return the coefficient, non-conformable pairs must yield QueryError::Conformance with the reciprocal flag exactly in the reciprocal case and suggestions that multiply out dimensionally.",
+   note="Leaf values from Context::lookup; float-valued units excluded (counted); suggestion texts the check cannot read are counted, not reported.",
+   design="§4 C03"),
+ "C05": dict(
+   level="exploration",
+   technique="property-based testing (proptest + boundary sweep) against an independent numeral reader (recurring blocks, exponents, fractions) in bases 2..36",
+   text="(p, q, base, digits mode) cases from boundary families ((b^k±1)/(b^j±1), short/long recurring periods, notation switches, up to ~3000 bits) are printed by Numeric::to_string and through `p|q -> [mode] [base B]` queries; an own reader computes the rational each printed numeral denotes: marked exact => equal; marked approximate => truncation toward zero within one last-digit unit and not exact; stated period = bracket length; `approx.` shown iff approx_value present.",
+   note="In bases >= 15 `e` is digit and exponent marker: all grammatical readings are tried (sound, slightly weaker there). Digits(n) generated up to n = 2000. Floats are out of scope.",
+   design="§4 C05"),
+ "C07": dict(
+   level="exploration",
+   technique="exhaustive enumeration of prefix+unit[+s] strings of the bundled database plus property-based generated colliding databases, against a reference resolver",
+   text="All ~542k strings u, p+u, u+s, p+u+s of the loaded database are resolved with Context::lookup and compared with a reference resolver over a registry dump (exact > prefix split > plural; any split accepted), for determinism (second call, second independently loaded context) and for canonicalize preserving the denoted value; generated databases with deliberately colliding names and distinct prime values repeat this on their cross products.",
+   note="The registry's public maps are the dump. Which split is taken among several is listed, not judged. ans/ANS/_ excluded (C15).",
+   design="§4 C07"),
+ "C09": dict(
+   level="exploration",
+   technique="property-based testing (proptest) of the mixed-radix decomposition laws recomputed with own rationals",
+   text="Random values (zero, tiny, huge, negative, non-terminating) times lists of 2..6 units from one dimensionality class in random/ascending/descending order with repeats, and time values for the automatic breakdown: sum(part_i*u_i) = v exactly, inner parts integers, signs agree, each remainder smaller than the unit just used, last remainder zero; lists with a stranger or a value of another class must be refused.",
+   note="Units with non-positive or float values are excluded from lists (named in evidence).",
+   design="§4 C09"),
+ "C10": dict(
+   level="exploration",
+   technique="enumeration of all scale/spelling pairs plus property-based testing (proptest) against textbook affine formulas as exact rationals",
+   text="All 26x26 spelling pairs over a literal alphabet and random rationals in every notation (to 60 fractional digits, 1e+-20, negative, below absolute zero) with chains of up to 4 conversions: `x S` must denote the textbook kelvin value exactly, `x S1 -> S2` the textbook composition exactly (so chains neither drift nor fail to invert); scales on dimensioned operands and inside compound targets (scale first or last) must be refused.",
+   note="Constants hard-coded from the textbook formulas, not read from the database.",
+   design="§4 C10"),
+ "C11": dict(
+   level="exploration",
+   technique="exhaustive enumeration of operator nestings plus property-based testing (proptest) of the print/parse round-trip",
+   text="Skeletons (operator kinds x operand slots) are rendered fully parenthesised and parsed by rink to obtain parser-producible trees with exactly that nesting; every chain of nested (kind, slot) pairs to depth 3 (quick) / 4 (thorough) and random skeletons to depth 8 must satisfy parse_expr(e.to_string()) == e with all input consumed, also through serde_json of a DefEntry.",
+   note="Numeric leaves only when they print exactly (the statement's precondition); dates and error nodes excluded. One recorded finding (names needing quotes).",
+   design="§4 C11"),
+ "C19": dict(
+   level="exploration",
+   technique="model-based property testing (bounded-exhaustive and proptest operation sequences against a reference model) plus barrier-synchronised multi-thread stress with a sound lower-bound oracle",
+   text="Every operation sequence up to length 4 (quick) / 5-6 (thorough) over alloc/alloc_zeroed/realloc/dealloc/read-usage/read-peak/set_limit with boundary sizes on a private Alloc, and random sequences to 400 operations, are run against a reference model: usage = sum of live sizes, success => within limit, refusal => usage unchanged and block intact, peak >= model peak; 2..16 threads hit the limit simultaneously in barrier-released rounds while a harness counter that lower-bounds true usage must never exceed the limit.",
+   note="Thread phase samples schedules (does not enumerate them); Layout align fixed to 8; a refusal of a request that would have fit is allowed (the statement is one-directional).",
+   design="§4 C19"),
 }
 
 NOT_YET = "check not built yet in this session (planned; see DESIGN.md §4)"
